@@ -871,11 +871,27 @@ func ruleC08Mint(e *Env) {
 				var from, to types.Type
 				var x ssa.Value
 				switch c := in.(type) {
-				case *ssa.Convert:
-					from, to, x = c.X.Type(), c.Type(), c.X
 				case *ssa.ChangeType:
 					from, to, x = c.X.Type(), c.Type(), c.X
 				case *ssa.MultiConvert:
+					from, to, x = c.X.Type(), c.Type(), c.X
+				case *ssa.Convert:
+					// a uint64 that a call made out of a Size (`u, _ := Bytes[uint64](s)`) narrowed afterwards
+					if ex, ok := c.X.(*ssa.Extract); ok && isU64(c.X.Type()) && !(o == by || onlyCalledFrom(e, o, by, 0)) {
+						if call, ok := ex.Tuple.(*ssa.Call); ok {
+							fromSz := false
+							for _, a := range call.Call.Args {
+								if types.Identical(a.Type(), sizeT) {
+									fromSz = true
+								}
+							}
+							if bt, isB := c.Type().Underlying().(*types.Basic); fromSz && isB && bt.Info()&types.IsInteger != 0 && bt.Kind() != types.Uint64 {
+								site := flow.FnName(fn)
+								ord[site+"narrow"]++
+								e.S.Bad(rule, site, fmt.Sprintf("%s <- uint64 of a Size #%d", c.Type(), ord[site+"narrow"]), "the uint64 a call made out of a Size is converted on to "+c.Type().String()+" outside the checked accessor: sizes beyond that type's range come out wrapped or negative", e.posOf(in), "Size(1<<63)")
+							}
+						}
+					}
 					from, to, x = c.X.Type(), c.Type(), c.X
 				case *ssa.BinOp:
 					// arithmetic on sizes outside the checked constructor builds a Size that no overflow test has seen
@@ -998,6 +1014,32 @@ func c08WrappingOrigin(x ssa.Value, seen map[ssa.Value]bool) (string, bool) {
 		case token.MUL, token.SHL, token.ADD, token.SUB:
 			return "the result of " + v.Op.String() + " arithmetic", false
 		}
+	case *ssa.Extract:
+		if c, ok := v.Tuple.(*ssa.Call); ok {
+			if f := c.Call.StaticCallee(); f != nil && f.Pkg != nil && f.Pkg.Pkg.Path() == "math/bits" {
+				return "a word of " + f.String() + " taken outside the constructor's overflow test", false
+			}
+			return c08CalleeOrigin(c, v.Index, seen)
+		}
+	case *ssa.Call:
+		return c08CalleeOrigin(v, 0, seen)
+	}
+	return "", false
+}
+
+// c08CalleeOrigin: the origin of result idx of a call to a function of the module (a one-line helper that does the
+// squeezing: `func bitsOf(v int64) uint64 { return uint64(v) }`).
+func c08CalleeOrigin(c *ssa.Call, idx int, seen map[ssa.Value]bool) (string, bool) {
+	f := c.Call.StaticCallee()
+	if f == nil || !flow.InRepo(f) || len(f.Blocks) == 0 || len(seen) > 40 {
+		return "", false
+	}
+	for _, b := range f.Blocks {
+		if ret, ok := b.Instrs[len(b.Instrs)-1].(*ssa.Return); ok && idx < len(ret.Results) {
+			if why, bad := c08WrappingOrigin(ret.Results[idx], seen); why != "" {
+				return why + " (in " + flow.FnName(f) + ")", bad
+			}
+		}
 	}
 	return "", false
 }
@@ -1041,14 +1083,14 @@ func c08NonNegativeAt(x ssa.Value, at *ssa.BasicBlock) bool {
 			continue
 		}
 		k, isK := bo.Y.(*ssa.Const)
-		if !isK || k.Value == nil || k.Value.Kind() != constant.Int || constant.Sign(k.Value) != 0 {
+		if !isK || k.Value == nil || k.Value.Kind() != constant.Int {
 			continue
 		}
 		side := -1
-		switch bo.Op {
-		case token.LSS:
+		switch kv, _ := constant.Int64Val(k.Value); {
+		case kv == 0 && bo.Op == token.LSS, kv == -1 && bo.Op == token.LEQ:
 			side = 1
-		case token.GEQ:
+		case kv == 0 && bo.Op == token.GEQ, kv == -1 && bo.Op == token.GTR:
 			side = 0
 		}
 		if side < 0 {
